@@ -439,29 +439,43 @@ func ruleC18_4(c *Ctx, r *Rep) {
 		if !isC || cst.Value == nil || cst.Value.String() != "false" {
 			continue
 		}
-		cs := edgeConds(ret.Block())
-		reason := ""
-		for _, cd := range cs {
-			nc := normCond(cd.V, cd.Pol)
-			switch x := nc.V.(type) {
-			case *ssa.BinOp:
-				z, isZ := constInt(x.Y)
-				sx, sy := sources(x.X), sources(x.Y)
-				switch {
-				case isZ && z == 0 && atomicCountRead(x.X, 0) && (x.Op == token.LEQ && nc.Pol || x.Op == token.GTR && !nc.Pol || x.Op == token.LSS && nc.Pol):
-					reason = "count"
-				case sx["field:Operation"] && sy["param:op"] && (x.Op == token.NEQ && nc.Pol || x.Op == token.EQL && !nc.Pol):
-					reason = "operation"
-				case ((sx["param:params"] && sy["field:Parameters"]) || (sy["param:params"] && sx["field:Parameters"])) && !isLenCall(x.X) && !isLenCall(x.Y) && (x.Op == token.NEQ && nc.Pol || x.Op == token.EQL && !nc.Pol):
-					reason = "different"
-				case isLenCall(x.X) && isLenCall(x.Y) && sx["field:Parameters"] && !sx["param:params"] && sy["param:params"] && (x.Op == token.GTR && nc.Pol || x.Op == token.LEQ && !nc.Pol):
-					reason = "more injected parameters than the call has"
-				}
-			case *ssa.Extract:
-				if lk, ok := x.Tuple.(*ssa.Lookup); ok && x.Index == 1 && lk.CommaOk && !nc.Pol && sources(lk.X)["param:params"] && sources(lk.Index)["field:Parameters"] {
-					reason = "missing"
+		reasonOf := func(cs []Cond) string {
+			reason := ""
+			for _, cd := range cs {
+				nc := normCond(cd.V, cd.Pol)
+				switch x := nc.V.(type) {
+				case *ssa.BinOp:
+					z, isZ := constInt(x.Y)
+					sx, sy := sources(x.X), sources(x.Y)
+					switch {
+					case isZ && z == 0 && atomicCountRead(x.X, 0) && (x.Op == token.LEQ && nc.Pol || x.Op == token.GTR && !nc.Pol || x.Op == token.LSS && nc.Pol):
+						reason = "count"
+					case sx["field:Operation"] && sy["param:op"] && (x.Op == token.NEQ && nc.Pol || x.Op == token.EQL && !nc.Pol):
+						reason = "operation"
+					case ((sx["param:params"] && sy["field:Parameters"]) || (sy["param:params"] && sx["field:Parameters"])) && !isLenCall(x.X) && !isLenCall(x.Y) && (x.Op == token.NEQ && nc.Pol || x.Op == token.EQL && !nc.Pol):
+						reason = "different"
+					case isLenCall(x.X) && isLenCall(x.Y) && sx["field:Parameters"] && !sx["param:params"] && sy["param:params"] && (x.Op == token.GTR && nc.Pol || x.Op == token.LEQ && !nc.Pol):
+						reason = "more injected parameters than the call has"
+					}
+				case *ssa.Extract:
+					if lk, ok := x.Tuple.(*ssa.Lookup); ok && x.Index == 1 && lk.CommaOk && !nc.Pol && sources(lk.X)["param:params"] && sources(lk.Index)["field:Parameters"] {
+						reason = "missing"
+					}
 				}
 			}
+			return reason
+		}
+		// judged per path: `if a || b { return false }` has no single dominating condition
+		reason, all := "", true
+		np := pathsTo(fn, ret.Block(), func(cs []Cond) {
+			if w := reasonOf(cs); w != "" {
+				reason = w
+			} else {
+				all = false
+			}
+		})
+		if np == 0 || !all {
+			reason = ""
 		}
 		r.Check("C18.4", fmt.Sprintf("C18.4:no-match-only-for-a-reason#%d", i+1), ret.Pos(), reason != "", reason, "match says no on a path that has established neither an exhausted count, nor another operation, nor a missing or different injected parameter (e.g. a size pre-check that also rejects calls with exactly the injected parameters): matching calls are not failed and the fault is never used up")
 	}
@@ -539,6 +553,14 @@ func ruleC18_5(c *Ctx, r *Rep) {
 					nc := normCond(iff.Cond, true)
 					if positiveTest(nc.V, 0) {
 						ok = true
+					}
+				}
+				// ... or handed back as the keep / drop verdict of a helper of the operation (`return dd, dd.Count > 0`)
+				if ret, isRet := b.Instrs[len(b.Instrs)-1].(*ssa.Return); isRet && f != fn {
+					for i := range ret.Results {
+						if positiveTest(retResult(ret, i), 0) {
+							ok = true
+						}
 					}
 				}
 			}
